@@ -94,7 +94,17 @@ def enumerate_cases(tier: str, shard: int, nshards: int):
     """The pathological families of C20 at two sizes (well-formedness must also hold at scale)."""
     from .c20 import F as FAMILIES
 
+    import itertools
+
+    from .c02 import NEST_ALPHABET
+
     idx = 0
+    for k in range(1, (5 if tier == "quick" else 6) + 1):
+        for combo in itertools.product(NEST_ALPHABET, repeat=k):
+            idx += 1
+            if idx % nshards != shard:
+                continue
+            yield {"src": "".join(combo), "cfg": C.simple("js-default"), "enum": True}
     for name in sorted(FAMILIES):
         for nn in (40, 700) if tier == "quick" else (40, 700, 8000):
             for preset in ("js-default", "commonmark"):
